@@ -43,12 +43,12 @@ func init() {
 			"every variable name + 4 other spellings x %d selector forms as rule target in all 5 phases (thorough also as SecRuleUpdateTargetById/ByTag argument); every transformation + 3 other spellings (%d), alone, doubled, quoted (thorough: all ordered pairs); "+
 			"%d roles x %d roles x %d strings for one string used twice (in one WAF; in two WAFs alive in one process); %d other engine contexts (DetectionOnly, Reject limit actions, body access Off, 16-byte in-memory limit with kept uploads, engine Off, tiny argument / JSON-depth limits) x a sample of the action and ctl classes; a sample of all classes with debug level 9 and the audit engine On (4 formats x 2 writers x 3 part sets x 5 disruptive actions x 5 phases); "+
 			"thorough only: every text obtained from a hole text by deleting or duplicating one delimiter, one of %q. "+
-			"Every accepted configuration serves the battery of call sequences (quick %d, thorough %d: canonical GET/POST, bodies of limit-1/limit/limit+1 bytes, 0/1-byte writes, binary bytes in every field, multipart with file, JSON, XML, reversed order, bodies before headers, response only, io.Reader bodies, repeated calls, one-byte chunks, no calls; Close twice after each). "+
+			"Every accepted configuration serves the battery of call sequences (quick %d, thorough %d: canonical GET/POST, bodies of limit-1/limit/limit+1 bytes, 0/1-byte writes, binary bytes in every field, multipart with file, JSON, XML, reversed order, bodies before headers, response only, io.Reader bodies, repeated calls, one-byte chunks, no calls, calls after Close, 600-byte fields of continuation bytes; Close twice after each). "+
 			"distinct_nontrivial = distinct accepted configurations (the ones that reached the transaction battery)",
 			bodyLimit, len(directiveNames), len(genericArgs), len(actionNames), len(genericValues), len(ctlOptions), len(ctlGeneric), len(operatorNames), len(operatorArgs),
 			len(selectorForms("V")), len(transformationNames), len(roles), len(roles), len(roleStrings), len(engineContexts), delimiters, len(quickBattery), len(battery)),
 		Assumptions: []string{
-			"a transaction is not used after Close (Close twice is exercised); one goroutine per transaction",
+			"calls after Close are exercised (Close in a non-final position, Close first, Close twice) on an object that is not handed to another transaction meanwhile; one goroutine per transaction",
 			"operators that leave the process (@rbl DNS, @inspectFile exec) are constructed but never evaluated; audit writers HTTPS/Syslog are initialised but never written to over the network",
 			"file-system targets of directives are confined to the worker's private directory; the file system does not fail (C20's subject)",
 			"hangs are detected by a 20 s per-case watchdog (re-run twice before it is believed), which is a timeout, not an exploration",
